@@ -216,7 +216,7 @@ var APIs map[int]*API
 
 func init() {
 	var err error
-	APIs, err = ParseSchemas(schemaText)
+	APIs, err = ParseSchemas(schemaText + "\n" + schemaText2)
 	if err != nil {
 		panic(err)
 	}
